@@ -59,7 +59,8 @@ def make_stack(kind, default_noreply=True, key_prefix=b"", **kw):
     net = fakesock.FakeNet()
     srv = net.add_server(("mc1", 11211))
     opts = dict(socket_module=net, default_noreply=default_noreply, key_prefix=key_prefix)
-    opts.update({"connect_timeout": 3, "timeout": 7})
+    if not kw.pop("leave_timeouts_unset", False):
+        opts.update({"connect_timeout": 3, "timeout": 7})
     opts.update(kw)
     if kind == "client":
         cl = Client(("mc1", 11211), **opts)
@@ -216,7 +217,7 @@ def replay_history(kind, hist, variant, extra=None, dn=None, prefix=None, **stac
         else:
             res = do_op(cl, ev, dn, variant + i, kind)
         ev = dict(ev, cmds=[canon_cmd(c) for c in net.sent_cmds], conn=conn_info(net.log[mark:]))
-        if kind != "hash3" and ev["op"] not in EXTRA_OPS:
+        if kind not in ("hash3", "retrying") and ev["op"] not in EXTRA_OPS:      # (a retrying wrapper repeats commands by design)
             try:
                 ev["wcmds"] = model_cmds(net.sent_cmds, prefix)
             except Exception:   # noqa -- something unparseable went out: the results (and C02) judge that
